@@ -286,6 +286,10 @@ extract_args(vector_string &args, const string &expr, size_t &p) const {
             p++;
           }
         }
+        if (p >= expr.size()) {
+          // The literal is not terminated; there is nothing left to scan.
+          break;
+        }
       }
       else if (expr[p] == '(') {
         ++paren_level;
